@@ -69,9 +69,15 @@ Definition ocm_eqb (x y : option cm) : bool :=
 (** Observation of a trace: choices, score, return value. *)
 Definition tobs := (cm * Z * value)%type.
 Definition obs_of (t : tr) : tobs := (choices t, get_score t, get_retval t).
+(** -infinity / +infinity are carried as the sentinels -/+10^9; any total beyond
+    10^8 in magnitude is clamped to the sentinel before comparison. *)
+Definition clampz (z : Z) : Z :=
+  if z <? -100000000 then -1000000000 else if 100000000 <? z then 1000000000 else z.
+Definition zeqc (a b : Z) : bool := Z.eqb (clampz a) (clampz b).
+
 Definition tobs_eqb (a b : tobs) : bool :=
   let '(c1, s1, r1) := a in let '(c2, s2, r2) := b in
-  cm_eqb c1 c2 && Z.eqb s1 s2 && value_eqb r1 r2.
+  cm_eqb c1 c2 && zeqc s1 s2 && value_eqb r1 r2.
 
 (** Results agree when both fail or both succeed with equal payloads. *)
 Definition res_agree {A} (eqb : A -> A -> bool) (m o : res A) : bool :=
@@ -88,7 +94,7 @@ Definition res_agree {A} (eqb : A -> A -> bool) (m o : res A) : bool :=
 Definition coherent_obs (g : gf) (args : value) (o : tobs) : bool :=
   let '(c, s, r) := o in
   match den g c args with
-  | Ok (w, r') => Z.eqb w (- s) && value_eqb r r'
+  | Ok (w, r') => zeqc w (- s) && value_eqb r r'
   | Err _ => false
   end.
 
@@ -119,7 +125,7 @@ Definition gen_spec (g : gf) (x : option cm) (args : value) (o : tobs * Z) : boo
   | None => Z.eqb w 0
   | Some c =>
       cm_sub c (fst (fst t)) &&
-      Z.eqb w (total_on (cm_binds c) (sites_of g (fst (fst t)) args))
+      zeqc w (total_on (cm_binds c) (sites_of g (fst (fst t)) args))
   end.
 
 (** Leaf value of a choice map at a path. *)
@@ -224,8 +230,8 @@ Inductive gcase :=
 | CGen (g : gast) (x : option cm) (args : value) (o : res (tobs * Z))
 | CHist (g : gast) (args0 : value) (ops : list op) (obs : list step_obs).
 
-Definition zv_eqb (a b : Z * value) : bool := Z.eqb (fst a) (fst b) && value_eqb (snd a) (snd b).
-Definition tz_eqb (a b : tobs * Z) : bool := tobs_eqb (fst a) (fst b) && Z.eqb (snd a) (snd b).
+Definition zv_eqb (a b : Z * value) : bool := zeqc (fst a) (fst b) && value_eqb (snd a) (snd b).
+Definition tz_eqb (a b : tobs * Z) : bool := tobs_eqb (fst a) (fst b) && zeqc (snd a) (snd b).
 Definition step_eqb (a b : tobs * Z * dm) : bool :=
   let '(t1, w1, d1) := a in let '(t2, w2, d2) := b in
   tobs_eqb t1 t2 && Z.eqb w1 w2 && dm_eqb (dm_prune d1) (dm_prune d2).
